@@ -43,7 +43,7 @@ def gen_history(rng, maxlen=6):
         pairs.append((a, b))
     calls = []
     for _ in range(rng.randint(1, 4)):
-        call = {"mode": rng.choice(MODES), "distance": rng.random() < 0.3, "gop": rng.choice([-1, -2, -0.5]),
+        call = {"mode": rng.choice(MODES), "distance": rng.random() < 0.3, "gop": rng.choice([-1, -2, -0.5, 0]),
                 "scale": rng.choice([0.5, 1.0, 0.25]), "factor": rng.choice([0.0, 0.3, 1.0]),
                 "restricted_chars": rng.choice(["T_", "", "_"])}
         # the library's own defaults are part of what is exercised: every keyword is left out now and then
@@ -51,6 +51,38 @@ def gen_history(rng, maxlen=6):
                               if rng.random() < 0.3)
         calls.append(call)
     return {"model": model, "pairs": pairs, "calls": calls}
+
+
+DOC_DEFAULTS = {"gop": -1, "scale": 0.5, "mode": "global", "factor": 0.3, "restricted_chars": "T_",
+                "distance": False, "model": "sca"}
+GLUE_ERRORS = []
+
+
+def glue_check(pw, h, kw):
+    """Pairwise.align(**kw) must be calign.align_pairs on the classes / prosodic weights / prosodic strings of the
+    pairs under the model, with exactly the keywords that were passed and the DOCUMENTED defaults for those left
+    out.  The reference inputs come from a fresh Pairwise object, so state left on the used object by earlier calls
+    does not enter them; align_pairs itself is tied to the Coq model by the align streams.  Identical code path,
+    identical floats: the comparison is exact.  Returns None or a description of the difference."""
+    import copy
+    from lingpy.align.pairwise import Pairwise
+    from lingpy.algorithm.cython import _calign as calign
+    eff = dict(DOC_DEFAULTS)
+    eff.update(kw)
+    ref = Pairwise([(" ".join(a), " ".join(b)) for a, b in h["pairs"]])
+    ref._set_model(model=eff["model"])
+    exp = calign.align_pairs(copy.deepcopy(ref.classes), copy.deepcopy(ref.weights), copy.deepcopy(ref.prostrings),
+                             eff["gop"], eff["scale"], eff["factor"], ref.scoredict, eff["mode"],
+                             eff["restricted_chars"], distance=1 if eff["distance"] else 0)
+    got = pw._alignments
+    exp = [(a, b, float(c)) for a, b, c in exp]
+    got = [(a, b, float(c)) for a, b, c in got]
+    if exp == got:
+        return None
+    for i, (e, g) in enumerate(zip(exp, got)):
+        if e != g:
+            return {"pair": i, "expected": repr(e), "got": repr(g), "score_differs": e[2] != g[2]}
+    return {"pair": -1, "expected": "%d alignments" % len(exp), "got": "%d alignments" % len(got), "score_differs": True}
 
 
 def run_history(h):
@@ -69,12 +101,42 @@ def run_history(h):
                 kw.pop(k, None)
         pw.align(**kw)
         mode = kw.get("mode", "global")
+        glue = glue_check(pw, h, kw)
+        if glue:
+            GLUE_ERRORS.append({"history": h, "call": ci, "passed_keywords": {k: v for k, v in kw.items()},
+                                "scale_is_1": kw.get("scale", 0.5) == 1, **glue})
         for pi, (a, b) in enumerate(h["pairs"]):
             almA, almB, _ = pw.alignments[pi]
             cases.append({"history": h, "call": ci, "pair": pi, "tokA": list(a), "tokB": list(b),
                           "local": mode == "local", "almA": list(almA), "almB": list(almB),
                           "stored_tokens": [list(pw.tokens[pi][0]), list(pw.tokens[pi][1])]})
     return cases
+
+
+def glue_histories(rng, n):
+    """Runs n random histories for the glue check only.  Returns a stream record and the list of differences."""
+    import time
+    t0 = time.time()
+    GLUE_ERRORS.clear()
+    calls = raised = 0
+    first_raise = None
+    dist = {}
+    for _ in range(n):
+        h = gen_history(rng)
+        try:
+            run_history(h)
+        except Exception as e:      # reported by C01 (valid history raised); counted here
+            raised += 1
+            first_raise = first_raise or {"history": h, "error": "%s: %s" % (type(e).__name__, e)}
+        calls += len(h["calls"])
+        for c in h["calls"]:
+            for k in ["mode=" + c["mode"], "omitted=%d" % len(c["omit"]), "factor=%s" % c["factor"], "gop=%s" % c["gop"],
+                      "restricted=%r" % c["restricted_chars"]]:
+                dist[k] = dist.get(k, 0) + 1
+    errs = list(GLUE_ERRORS)
+    GLUE_ERRORS.clear()
+    return ({"cases": calls, "distinct_nontrivial": calls, "impl_raised": raised, "disagreements": len(errs),
+             "checker_rejections": 0, "distribution": dist, "wall_s": round(time.time() - t0, 1)}, errs, first_raise)
 
 
 def run_impl(case):
